@@ -115,6 +115,11 @@ FAMILIES["table-autocomplete"] = lambda L: "|a" * (L // 7) + "|\n" + "|-" * (L /
 # setext headings whose text starts with "[": the reference rule is tried first on every such block and scans (and copies) all
 # following non-blank lines before it gives up - same root cause as refdefs (pointed out by a round-5 seeding agent)
 FAMILIES["setext-bracket"] = lambda L: rep_to("[x\n===\n", L)
+# images inside image descriptions: every description is tokenized by a parse of its own (fresh state), so what bounds the work is
+# that the description is tokenized once per level, not once per enclosing scan
+FAMILIES["nested-images"] = lambda L: "![" * (L // 6) + "a" + "](x)" * (L // 6)
+FAMILIES["nested-images-in-link"] = lambda L: "[" + "![" * (L // 6) + "a" + "](x)" * (L // 6) + "](y)"
+FAMILIES["image-rows"] = lambda L: rep_to("![a ![b ![c](z)](y)](x) ", L)
 KNOWN_QUADRATIC = {"refdefs": "family:refdefs", "quote-heading-lazy": "family:quote-heading-lazy", "table-autocomplete": "family:table-autocomplete",
                    "setext-bracket": "family:setext-bracket"}
 
